@@ -183,6 +183,8 @@ val all_binop : binop list
 
 val unop_idx : unop -> nat
 
+val all_unop : unop list
+
 val is_bitwise : binop -> bool
 
 type expr =
